@@ -41,7 +41,7 @@ REACTIONS = [
     ("ack", "almost", "slow"), ("nak", "almost", "slow"),
 ]
 ALMOST = 0.01
-BUDGET_DEFAULT = {"slow": 1, "stale": 1, "coinc": 1, "data": 1, "rstack": 1}
+BUDGET_DEFAULT = {"slow": 1, "stale": 1, "coinc": 1, "data": 1, "rstack": 1, "cancel": 0, "hreset": 0}
 
 
 class Cur:
@@ -100,6 +100,8 @@ class World:
         self.left = {k: params.get(k, v) for k, v in BUDGET_DEFAULT.items()}
         self.extras_left = params.get("extras", 0)
         self.recs: dict[int, Cur] = {}
+        self.cancelled: set[int] = set()       # sends whose *caller* was cancelled by the environment (the frame stays outstanding)
+        self.host_reset_sent = False
         self.recovered = False
         self.midsend_rstack = False
         self.ended = False
@@ -138,6 +140,10 @@ class World:
         now = self.loop.time()
         self.outcomes[i] = (res, now)
         c = self.recs.get(i)
+        if i in self.cancelled and res == "CancelledError":
+            # the environment cancelled the caller: sending "cannot really be cancelled" -- the frame stays outstanding, keeps
+            # its retry budget and keeps the window; nothing is judged here, the wire monitor goes on
+            return
         if res == "ok":
             self.stats["ok"] += 1
             if c is None:
@@ -298,6 +304,7 @@ class World:
             self._rstack_seen()
 
     def _rstack_seen(self):
+        self.host_reset_sent = False
         self.failed = False
         self.fail_reason = None
         self.fail_reports = 0
@@ -365,6 +372,8 @@ class World:
                 out.append(((name, when, cls), 0 if (name, when) == ("ack", "now") else 1))
             if self.midsend_rstack and self.extras_left > 0:
                 out.append((("submit-during-send",), 1))
+            if self.left["cancel"] > 0 and c.idx < len(self.tasks) and not self.tasks[c.idx].done():
+                out.append((("cancel-caller",), 1))
             return out
         if not all(t.done() for t in self.tasks):
             # a send is waiting although nothing is outstanding: only time can pass
@@ -374,6 +383,8 @@ class World:
         out.append((("end",), 0))
         if self.failed and self.left["rstack"] > 0:
             out.append((("recover-rstack",), 1))
+        if self.failed and self.left["hreset"] > 0 and not self.host_reset_sent:
+            out.append((("host-reset",), 1))    # the host asks for a reset (RST written); the link stays failed until the RSTACK
         # a further send is offered on a failed link (must raise at once, silently) and after the link was
         # recovered by an RSTACK (numbering restarts at 0); post-RSTACK states merge well, which keeps the space finite
         if self.extras_left > 0 and (self.failed or self.recovered):
@@ -396,6 +407,24 @@ class World:
             self.loop.call_soon(self.proto.data_received, ref_ash.wire(ref_ash.enc_rstack(0x0B)))
             self.loop.settle()
             self._scan_up()
+        elif label[0] == "cancel-caller":
+            self.left["cancel"] -= 1
+            self.cancelled.add(self.cur.idx)
+            self.tasks[self.cur.idx].cancel()
+            self.loop.settle()
+            self._scan_up()
+        elif label[0] == "host-reset":
+            self.left["hreset"] -= 1
+            self.host_reset_sent = True
+            n_data = self.stats["data_writes"]
+            try:
+                self.proto.send_reset()
+            except Exception as e:  # noqa
+                self._v(f"send_reset on a failed link raised {type(e).__name__}")
+            self.loop.settle()
+            self._scan_up()
+            if self.stats["data_writes"] != n_data:
+                self._v("a DATA frame was written by the reset request")
         elif label[0] == "submit-during-send":
             self.extras_left -= 1
             self._submit()
@@ -448,6 +477,7 @@ class World:
             c.key(now) if c else None,
             self.prev_frm, self.restart, self.failed, self.fail_reason, self.fail_reports,
             self.ncp_frm, tuple(sorted(self.left.items())), self.extras_left, self.ended, self.recovered, self.midsend_rstack,
+            tuple(sorted(self.cancelled)), self.host_reset_sent,
             tuple(sorted((i, r) for i, (r, t) in self.outcomes.items())),
             tuple(t.done() for t in self.tasks),
             self._expect_rstack_up,
@@ -473,8 +503,9 @@ def configs(tier):
     lean = {"slow": 0, "stale": 0, "data": 0}
     quick = [
         {"sends": 2, "extras": 0, "slow": 0},                 # consecutive sends, full menu except late reactions
+        {"sends": 2, "extras": 0, "cancel": 1, **lean, "coinc": 0, "rstack": 0},   # the caller of the outstanding send is cancelled
         {"sends": 1, "extras": 0},                            # one send, full menu incl. late reactions
-        {"sends": 1, "extras": 1, **lean},                    # failure, silent link, RSTACK recovery, send after recovery
+        {"sends": 1, "extras": 1, "hreset": 1, **lean},       # failure, silent link (also after the host's own RST), RSTACK recovery, send after recovery
         {"sends": 2, "extras": 1, **lean},
         {"sends": 1, "extras": 1, "warmup": 7, **lean},       # first frame number 7: wraps
         {"sends": 1, "warmup": 12, "extras": 0, "data": 0, "rstack": 0, "stale": 0},  # adaptive timeout at its floor
